@@ -22,9 +22,9 @@ from common import storage_of
 logging.getLogger('labtech').setLevel(logging.CRITICAL)
 
 import lv_universe3 as U3  # noqa
-SCHED = list(U.SCHED_TYPES) + [U3.TN1]       # index 12: same class name as index 3, another module
-MAXPAR = [None, None, 1, 1, 2, 2, 3, 3, None, None, None, None, 1]          # per type index of SCHED
-CACHEABLE = [True, False] * 4 + [True, True, True, True, False]
+SCHED = list(U.SCHED_TYPES) + [U3.TN1, U.TCtxF]       # 12: same class name as index 3, another module; 13: fails in filter_context
+MAXPAR = [None, None, 1, 1, 2, 2, 3, 3, None, None, None, None, 1, None]          # per type index of SCHED
+CACHEABLE = [True, False] * 4 + [True, True, True, True, False, True]
 
 
 # ------------------------------------------------------------------ generation
@@ -121,6 +121,9 @@ def gen_case(rng, *, max_n=8, p_fail=0.15, runner='l1', allow_dups=True, ntypes=
         specs.append(spec)
         reads.append(rd)
         behs.append('raise' if rng.random() < p_fail else 'ok')
+    if p_fail and rng.random() < 0.12:
+        # the failing tasks fail while their context is filtered (before run() is reached)
+        types = [13 if behs[t] == 'raise' else types[t] for t in range(n)]
     k = rng.randint(1, min(n, 4))
     req = [[t, 0] for t in rng.sample(range(n), k)]
     if rng.random() < 0.6 and [n - 1, 0] not in req:
